@@ -23,6 +23,7 @@ import (
 	"crypto/rsa"
 	"crypto/sha256"
 	"encoding/base32"
+	"encoding/base64"
 	"encoding/gob"
 	"encoding/hex"
 	"encoding/json"
@@ -30,6 +31,7 @@ import (
 	"fmt"
 	"io"
 	"io/fs"
+	"math/big"
 	"net/http"
 	"os"
 	"os/exec"
@@ -62,7 +64,15 @@ type gluecacheWorld struct {
 	// the second in which revision r was published (equal seconds: a republication within one second / with a clamped mtime)
 	NoEtag  bool
 	LastMod []int
+	// key DISCOVERY: repository 0 publishes its keys through `apk-configuration` -> JWKS; Jwks[e] is the key set it
+	// serves in key epoch e (a rotation / an added key = the next epoch)
+	Jwks [][]byte
 }
+
+const (
+	gluecacheConfPath = "apk-configuration"
+	gluecacheJwksPath = "discovery/jwks.json"
+)
 
 func (w *gluecacheWorld) save(path string) error {
 	var b bytes.Buffer
@@ -95,6 +105,7 @@ type gluecacheStep struct {
 	Fault   *gluecacheFault `json:"fault,omitempty"`
 	Reset   bool            `json:"reset,omitempty"` // reference builds only: empty the process-wide memo tables first
 	Repos   []int           `json:"repos,omitempty"` // configured repositories (0 = repo.test, 1 = repob.test); absent: [0]
+	Epoch   int             `json:"epoch,omitempty"` // key discovery: the key epoch repository 0 is in during this build
 }
 
 func (st gluecacheStep) repos() []int {
@@ -149,6 +160,7 @@ type gluecacheTransport struct {
 	mu    sync.Mutex
 	w     *gluecacheWorld
 	rev   int
+	epoch int
 	fault *gluecacheFault // armed: consumed by the first GET of its target
 	log   []string
 }
@@ -188,6 +200,11 @@ func (t *gluecacheTransport) RoundTrip(req *http.Request) (*http.Response, error
 			}
 			lastMod = time.Unix(1700000000+int64(sec), 0).UTC().Format(http.TimeFormat)
 		}
+	case path == gluecacheConfPath && len(t.w.Jwks) > 0:
+		// key discovery: neither document carries a validator
+		body = []byte(fmt.Sprintf(`{"jwks_uri": %q}`, "https://repo.test/"+gluecacheJwksPath))
+	case path == gluecacheJwksPath && len(t.w.Jwks) > 0:
+		body = t.w.Jwks[t.epoch%len(t.w.Jwks)]
 	case strings.HasSuffix(path, ".apk"):
 		// every apk of every revision stays downloadable
 		for _, files := range t.w.Revs {
@@ -277,7 +294,7 @@ func gluecacheBuild(w *gluecacheWorld, t *gluecacheTransport, root string, st gl
 	}
 	ic.Archs = []types.Architecture{types.ParseArchitecture("x86_64")}
 	t.mu.Lock()
-	t.rev, t.fault, t.log = st.Rev, st.Fault, nil
+	t.rev, t.epoch, t.fault, t.log = st.Rev, st.Epoch, st.Fault, nil
 	t.mu.Unlock()
 	opts := []build.Option{build.WithImageConfiguration(ic), build.WithArch(types.ParseArchitecture("x86_64")),
 		build.WithSourceDateEpoch(time.Unix(1700000000, 0)), build.WithTempDir(work), build.WithTransport(t)}
@@ -436,6 +453,45 @@ type cGlue struct {
 	RepoB   bool            `json:"repo_b,omitempty"`   // the world has the second repository (steps name it in `repos`)
 	NoEtag  bool            `json:"no_etag,omitempty"`  // the index of repository 0 is served without an ETag (Last-Modified only)
 	LastMod []int           `json:"last_mod,omitempty"` // the second in which revision r was published
+	Disc    bool            `json:"disc,omitempty"`     // repository 0 publishes keys through key discovery (steps name the key epoch)
+	NEpoch  int             `json:"nepoch,omitempty"`   // number of key epochs
+	DiscAdd bool            `json:"disc_add,omitempty"` // a new epoch ADDS a key to the set (else: the key is rotated)
+}
+
+// gluecacheDiscKeys: the discovery key pool (kid disc-<i>), generated once per harness process
+var (
+	gluecacheDiscOnce sync.Once
+	gluecacheDiscPool []*rsa.PublicKey
+)
+
+func gluecacheJwks(ids []int) []byte {
+	gluecacheDiscOnce.Do(func() {
+		for i := 0; i < 3; i++ {
+			k, err := rsa.GenerateKey(rand.Reader, 1024)
+			if err != nil {
+				panic(err)
+			}
+			gluecacheDiscPool = append(gluecacheDiscPool, &k.PublicKey)
+		}
+	})
+	type jwk struct {
+		Kty string `json:"kty"`
+		Kid string `json:"kid"`
+		Alg string `json:"alg"`
+		Use string `json:"use"`
+		N   string `json:"n"`
+		E   string `json:"e"`
+	}
+	var set struct {
+		Keys []jwk `json:"keys"`
+	}
+	for _, i := range ids {
+		pk := gluecacheDiscPool[i%len(gluecacheDiscPool)]
+		set.Keys = append(set.Keys, jwk{Kty: "RSA", Kid: fmt.Sprintf("disc-%d", i), Alg: "RS256", Use: "sig",
+			N: base64.RawURLEncoding.EncodeToString(pk.N.Bytes()), E: base64.RawURLEncoding.EncodeToString(big.NewInt(int64(pk.E)).Bytes())})
+	}
+	b, _ := json.Marshal(set)
+	return b
 }
 
 var (
@@ -527,6 +583,14 @@ func gluecacheGen(r *Rng, c *cCase, i int, tier string) {
 		if r.Chance(30) {
 			repos = []int{0, 1}
 		}
+	case x >= 40 && x < 64:
+		// key discovery: the repository publishes its keys through apk-configuration -> JWKS and rotates (or adds) a key
+		// between builds.  (Every key of the keyring in a directory of its own, one ETag each: the outcome of an offline
+		// build is a function of the history.)
+		g.Disc, g.NEpoch, g.DiscAdd = true, r.Range(2, 3), r.Chance(35)
+		for k := range g.KeyDir {
+			g.KeyDir[k], g.KeyEtag[k] = k, k
+		}
 	case x < 40:
 		g.NoEtag = true
 		if c.NRev < 2 {
@@ -553,6 +617,13 @@ func gluecacheGen(r *Rng, c *cCase, i int, tier string) {
 				repos = []int{0}
 			}
 		}
+	}
+	discDirected := false
+	if g.Disc && r.Chance(70) {
+		// the directed shape: one build over the cache, a key rotation, a build in a fresh process
+		discDirected = true
+		g.Procs = append(g.Procs, gluecacheProc{Steps: []gluecacheStep{{Mode: Pick(r, []string{"own", "default"}), Rev: rev, Keys: keys, Repos: repos}}})
+		g.Procs = append(g.Procs, gluecacheProc{Steps: []gluecacheStep{{Mode: "own", Rev: rev, Keys: keys, Repos: repos}}})
 	}
 	if g.RepoB && r.Chance(65) {
 		// the directed shape: the cache is filled over repos, then a repository is added and the build is offline
@@ -629,6 +700,19 @@ func gluecacheGen(r *Rng, c *cCase, i int, tier string) {
 		last.Steps[0].Mode = "default"
 	}
 	g.Procs = append(g.Procs, last)
+	if g.Disc {
+		// the key epochs: the repository moves on between builds (inside a process as well)
+		epoch, n := 0, 0
+		for pi := range g.Procs {
+			for si := range g.Procs[pi].Steps {
+				if n > 0 && epoch+1 < g.NEpoch && (r.Chance(40) || (discDirected && n == 1)) {
+					epoch++
+				}
+				g.Procs[pi].Steps[si].Epoch = epoch
+				n++
+			}
+		}
+	}
 	if g.RepoB {
 		// globalApkCache remembers the outcome of a package fetch — also its ERROR — per URL for the rest of the
 		// process (builds over the disk cache only): after an offline build that failed because a package of its image
@@ -686,7 +770,11 @@ type gluecacheEnv struct {
 	nproc   int
 	refs    map[string]gluecacheStepRes // "rev|k,k,k" -> cache-less build
 	idbRev  map[[32]byte]gluecacheImg
+	disc    bool
+	discSet []map[string][]byte // key epoch -> the key files a cache-less build discovers (name -> content)
 }
+
+func gluecacheIsDisc(name string) bool { return strings.HasPrefix(name, "disc-") }
 
 // gluecacheImg: which cache-less image an installed db belongs to: the index revision of repository 0 and whether
 // repository B's index was part of the resolution
@@ -695,12 +783,15 @@ type gluecacheImg struct {
 	b   bool
 }
 
-func gluecacheRefKey(rev int, keys []int, repos []int) string {
+func gluecacheRefKey(rev int, keys []int, repos []int, epoch int) string {
 	b := ""
 	for _, r := range repos {
 		if r == 1 {
 			b = "b"
 		}
+	}
+	if epoch >= 0 {
+		return fmt.Sprintf("%d%s|%v|e%d", rev, b, keys, epoch)
 	}
 	return fmt.Sprintf("%d%s|%v", rev, b, keys)
 }
@@ -766,6 +857,20 @@ func gluecacheSetup(c *cCase) (*gluecacheEnv, string) {
 		w.RepoB = BuildSynthRepo([]SPkg{appB}, []string{"x86_64"}).Files
 	}
 	w.NoEtag, w.LastMod = g.NoEtag, g.LastMod
+	if g.Disc {
+		e.disc = true
+		for ep := 0; ep < g.NEpoch; ep++ {
+			ids := []int{ep}
+			if g.DiscAdd {
+				ids = nil
+				for i := 0; i <= ep; i++ {
+					ids = append(ids, i)
+				}
+			}
+			w.Jwks = append(w.Jwks, gluecacheJwks(ids))
+		}
+		e.discSet = make([]map[string][]byte, g.NEpoch)
+	}
 	e.w = w
 	if err := w.save(e.world); err != nil {
 		return e, err.Error()
@@ -776,16 +881,26 @@ func gluecacheSetup(c *cCase) (*gluecacheEnv, string) {
 	seen := map[string]bool{}
 	for _, p := range g.Procs {
 		for _, st := range p.Steps {
+			ep0, ep1 := -1, -1
+			if g.Disc {
+				ep0, ep1 = 0, st.Epoch // (… or the keys of an earlier epoch)
+			}
 			for r := 0; r <= st.Rev; r++ { // (an offline build may legitimately reproduce an earlier revision)
 				for _, rp := range [][]int{{0}, {0, 1}} {
 					if len(rp) == 2 && !g.RepoB {
 						continue
 					}
-					// (both repository sets: an image over FEWER repositories than configured must be recognised as such)
-					k := gluecacheRefKey(r, st.Keys, rp)
-					if !seen[k] {
-						seen[k] = true
-						ref.Steps = append(ref.Steps, gluecacheStep{Mode: "none", Rev: r, Keys: st.Keys, Reset: true, Repos: rp})
+					for ep := ep0; ep <= ep1; ep++ {
+						// (both repository sets: an image over FEWER repositories than configured must be recognised as such)
+						k := gluecacheRefKey(r, st.Keys, rp, ep)
+						if !seen[k] {
+							seen[k] = true
+							rs := gluecacheStep{Mode: "none", Rev: r, Keys: st.Keys, Reset: true, Repos: rp}
+							if ep > 0 {
+								rs.Epoch = ep
+							}
+							ref.Steps = append(ref.Steps, rs)
+						}
 					}
 				}
 			}
@@ -804,13 +919,53 @@ func gluecacheSetup(c *cCase) (*gluecacheEnv, string) {
 		if res[i].Status != "ok" {
 			return e, "reference build failed: " + tailStr(res[i].Status, 300)
 		}
-		e.refs[gluecacheRefKey(st.Rev, st.Keys, st.repos())] = res[i]
+		ep := -1
+		if g.Disc {
+			ep = st.Epoch
+			// the key files the cache-less build discovers in this epoch: the same for every build of the epoch, another
+			// set in every other epoch, never empty
+			set := map[string][]byte{}
+			for n, b := range res[i].Keys {
+				if gluecacheIsDisc(n) {
+					set[n] = b
+				}
+			}
+			if len(set) == 0 {
+				return e, fmt.Sprintf("reference build of key epoch %d discovered no keys", ep)
+			}
+			if e.discSet[ep] == nil {
+				e.discSet[ep] = set
+			} else if !gluecacheSameSet(e.discSet[ep], set) {
+				return e, fmt.Sprintf("two reference builds of key epoch %d discovered different keys", ep)
+			}
+		}
+		e.refs[gluecacheRefKey(st.Rev, st.Keys, st.repos(), ep)] = res[i]
 		e.idbRev[sha256.Sum256(res[i].Idb)] = gluecacheImg{st.Rev, st.hasRepoB()}
+	}
+	for a := range e.discSet {
+		for b := range e.discSet {
+			if a < b && e.discSet[a] != nil && e.discSet[b] != nil && gluecacheSameSet(e.discSet[a], e.discSet[b]) {
+				return e, fmt.Sprintf("key epochs %d and %d publish the same keys", a, b)
+			}
+		}
 	}
 	return e, ""
 }
 
-// gluecacheOutcome: `ok:<rev>:<k>=<content>+…` (k: key index by file name, content: key index | P (proper prefix
+func gluecacheSameSet(a, b map[string][]byte) bool {
+	if len(a) != len(b) {
+		return false
+	}
+	for n, x := range a {
+		if y, ok := b[n]; !ok || !bytes.Equal(x, y) {
+			return false
+		}
+	}
+	return true
+}
+
+// gluecacheOutcome: with key discovery the list ends in `d=<epoch>` (the discovered key files are exactly those of that
+// epoch, byte for byte) | `d=-` (none) | `d=X`; `ok:<rev>:<k>=<content>+…` (k: key index by file name, content: key index | P (proper prefix
 // of a key) | X), `ok:img?` (an image that is no cache-less image), `err`
 func (e *gluecacheEnv) outcome(st gluecacheStep, r gluecacheStepRes) string {
 	if r.Status != "ok" {
@@ -826,8 +981,28 @@ func (e *gluecacheEnv) outcome(st gluecacheStep, r gluecacheStepRes) string {
 		imgRepos, revTok = []int{0, 1}, fmt.Sprint(rev)+"b"
 	}
 	var names []string
+	discFiles := map[string][]byte{}
 	for n := range r.Keys {
+		if e.disc && gluecacheIsDisc(n) {
+			discFiles[n] = r.Keys[n]
+			continue
+		}
 		names = append(names, n)
+	}
+	dtok, depoch := "", -1
+	if e.disc {
+		dtok = "X"
+		if len(discFiles) == 0 {
+			dtok = "-"
+		}
+		for ep, set := range e.discSet {
+			if set != nil && gluecacheSameSet(set, discFiles) {
+				dtok, depoch = fmt.Sprint(ep), ep
+			}
+		}
+		if depoch < 0 {
+			// (no cache-less image has these key files)
+		}
 	}
 	keyIdx := func(n string) int {
 		for i, k := range e.w.Keys {
@@ -861,8 +1036,14 @@ func (e *gluecacheEnv) outcome(st gluecacheStep, r gluecacheStepRes) string {
 		}
 		parts = append(parts, fmt.Sprintf("%d=%s", ki, content))
 	}
+	if e.disc {
+		parts = append(parts, "d="+dtok)
+		if depoch < 0 {
+			identity = false
+		}
+	}
 	if identity {
-		if ref, ok := e.refs[gluecacheRefKey(rev, st.Keys, imgRepos)]; !ok || ref.Digest != r.Digest {
+		if ref, ok := e.refs[gluecacheRefKey(rev, st.Keys, imgRepos, depoch)]; !ok || ref.Digest != r.Digest {
 			return "ok:img?"
 		}
 	}
@@ -964,7 +1145,7 @@ func (e *gluecacheEnv) abstractDir(g *cGlue) string {
 	return strings.Join(toks, ",")
 }
 
-func gluecacheStepToken(st gluecacheStep) string {
+func gluecacheStepToken(st gluecacheStep, disc bool) string {
 	var ks []string
 	for _, k := range st.Keys {
 		ks = append(ks, fmt.Sprint(k))
@@ -981,12 +1162,15 @@ func gluecacheStepToken(st gluecacheStep) string {
 		mode = "off"
 	}
 	tok := fmt.Sprintf("%s:%d:%s:%s", mode, st.Rev, strings.Join(ks, "+"), f)
-	if len(st.Repos) > 0 {
+	if len(st.Repos) > 0 || disc {
 		var rs []string
-		for _, r := range st.Repos {
+		for _, r := range st.repos() {
 			rs = append(rs, fmt.Sprint(r))
 		}
 		tok += ":" + strings.Join(rs, "+")
+	}
+	if disc {
+		tok += fmt.Sprintf(":%d", st.Epoch)
 	}
 	return tok
 }
@@ -1007,6 +1191,7 @@ func runGlue(c *cCase) []Step {
 	var descs []string
 	noImpl := false
 	seenRepoB, prevB, havePrev := false, false, false
+	prevEp, havePrevEp := 0, false
 	for _, p := range g.Procs {
 		if len(p.Steps) == 0 {
 			continue
@@ -1021,7 +1206,7 @@ func runGlue(c *cCase) []Step {
 		}
 		var toks []string
 		for i, st := range p.Steps {
-			toks = append(toks, gluecacheStepToken(st))
+			toks = append(toks, gluecacheStepToken(st, g.Disc))
 			o := e.outcome(st, res[i])
 			outs = append(outs, o)
 			if gluecacheSchedDependent(e.w, st) {
@@ -1051,6 +1236,19 @@ func runGlue(c *cCase) []Step {
 					tags = append(tags, "glue-cut-without-content-length")
 				}
 			}
+			if g.Disc {
+				if havePrevEp && prevEp != st.Epoch {
+					where := "between-processes"
+					if i > 0 {
+						where = "inside-process"
+					}
+					tags = append(tags, "glue-key-rotation-"+where+":"+st.Mode)
+				}
+				prevEp, havePrevEp = st.Epoch, true
+				if k := strings.LastIndex(o, "d="); k >= 0 {
+					tags = append(tags, "glue-discovered:"+map[bool]string{true: "current-epoch", false: "other"}[o[k+2:] == fmt.Sprint(st.Epoch)])
+				}
+			}
 			if i > 0 && p.Steps[i-1].Rev != st.Rev {
 				tags = append(tags, "glue-new-revision-inside-process:"+st.Mode)
 			}
@@ -1067,7 +1265,7 @@ func runGlue(c *cCase) []Step {
 				prevB, havePrev = st.hasRepoB(), true
 			}
 			if o == "err" {
-				descs = append(descs, fmt.Sprintf("%s → %s", gluecacheStepToken(st), tailStr(strings.ReplaceAll(res[i].Status, "\n", " "), 160)))
+				descs = append(descs, fmt.Sprintf("%s → %s", gluecacheStepToken(st, g.Disc), tailStr(strings.ReplaceAll(res[i].Status, "\n", " "), 160)))
 			}
 		}
 		if len(p.Steps) > 1 {
@@ -1099,6 +1297,14 @@ func runGlue(c *cCase) []Step {
 			if g.LastMod[k] == g.LastMod[k-1] {
 				tags = append(tags, "glue-republished-within-one-second")
 			}
+		}
+	}
+	if g.Disc {
+		tags = append(tags, "glue-key-discovery")
+		if g.DiscAdd {
+			tags = append(tags, "glue-key-added")
+		} else {
+			tags = append(tags, "glue-key-rotated")
 		}
 	}
 	if g.RepoB {
